@@ -12,7 +12,7 @@ import (
 // C01 — encode then decode returns the original value.
 
 func c01Cfg() core.GenCfg {
-	return core.GenCfg{Holder: true, Extras: true, BigIDs: true, Spellings: true, Twins: true, NamedRefs: namedRefs()}
+	return core.GenCfg{Holder: true, Extras: true, BigIDs: true, Spellings: true, Twins: true, BinaryPtr: true, NamedRefs: namedRefs()}
 }
 
 func genTV(cfg core.GenCfg) func(t *rapid.T) TV {
@@ -131,6 +131,9 @@ func runC01(w *worker) func(c TV) *Failure {
 		}
 		if k != len(out) {
 			return failf("roundtrip-consumed", "DecodeObject consumed %d of %d bytes", k, len(out))
+		}
+		if herr := b.CheckHeaders(dest.Elem()); herr != nil {
+			return failf("malformed-slice", "decoded object holds a malformed slice header: %v", herr)
 		}
 		got := b.Lift(dest.Elem())
 		m := core.EqualStruct(c.S, got, exp, core.EqOpts{}, "$")
